@@ -633,7 +633,8 @@ func c36(args []string) error {
 		fmt.Sscan(args[3], &peer)
 	}
 	rnd := rand.New(rand.NewSource(rep.Seed()))
-	rnd.Shuffle(len(scs), func(i, j int) { scs[i], scs[j] = scs[j], scs[i] })
+	// the order of the scenario file is the sample order chosen by the check (seeded, stratified; the first
+	// `peer` scenarios go through every pairing)
 	w := &fWorld{base: gitcli.TempDir("fworld"), servers: map[string]*fServer{}, vsrv: args[1], rnd: rnd}
 	defer w.stop()
 	if err := w.startDaemon(); err != nil {
